@@ -263,16 +263,15 @@ def applyNext {F : Type} (g : Option Group)
 
 def appliedCount (pd : PatchData) : Nat := (pd.filter fun p => p.2 = .applied).length
 
-/-- a client fetching the selected uris: a uri is fetched (entered as `Pending`) only if it has no
-status yet; already applied uris stay applied.  (The `ift_extend` binary re-inserts every selected
-uri as `Pending`, see `fetchOverwrite`.) -/
+/-- the client of `src/bin/ift_extend.rs` (since fix 980e661): a selected uri is fetched (entered as
+`Pending`) only if it has no status yet; already applied uris stay applied. -/
 def fetchMissing (fetch : Uri → List Nat) (pd : PatchData) (uris : List Uri) : PatchData :=
   uris.foldl (fun pd u => match pdGet pd u with
     | some _ => pd
     | none => pd ++ [(u, .pending (fetch u))]) pd
 
-/-- what `src/bin/ift_extend.rs` does: `patch_data.insert(uri, Pending(bytes))` for every selected
-uri, overwriting an `Applied` status -/
+/-- what `src/bin/ift_extend.rs` did before fix 980e661: `patch_data.insert(uri, Pending(bytes))`
+for every selected uri, overwriting an `Applied` status (kept to state why that loops) -/
 def fetchOverwrite (fetch : Uri → List Nat) (pd : PatchData) (uris : List Uri) : PatchData :=
   uris.foldl (fun pd u => pdInsert pd u (.pending (fetch u))) pd
 
